@@ -110,6 +110,57 @@ theorem C18_no_number_from_zero_division (normalized : Bool) (d up lo base : Rat
   · simp only [coef, quot]
     split <;> simp
 
+/-! ### response coefficients are the same quotient -/
+
+/-- every entry of a response-coefficient column is the SAME quotient `coef` the elasticities use: of the last rows of
+    the upper / lower steady state, scaled with the last row of the unperturbed steady state when normalised -/
+theorem C18_response_entries (d old : Rat) (u l nv : List (Name × Rat)) :
+    diffCol d old (some u) (some l)
+      = u.map (fun kv => (kv.1, (l.lookup kv.1).bind fun lv => coef false d old kv.2 lv 0)) ∧
+    normCol old (diffCol d old (some u) (some l)) (some nv)
+      = u.map (fun kv => (kv.1, (l.lookup kv.1).bind fun lv => (nv.lookup kv.1).bind fun n => coef true d old kv.2 lv n)) := by
+  constructor
+  · simp only [diffCol]
+    apply List.map_congr_left
+    intro kv _
+    cases l.lookup kv.1 with
+    | none => rfl
+    | some lv => simp [coef_false_eq]
+  · simp only [diffCol, normCol, List.map_map]
+    apply List.map_congr_left
+    intro kv _
+    simp only [Function.comp]
+    cases l.lookup kv.1 with
+    | none => simp
+    | some lv =>
+      simp only [Option.bind]
+      cases hn : nv.lookup kv.1 with
+      | none => cases quot (kv.2 - lv) (2 * d * old) <;> simp
+      | some n =>
+        simp only [coef]
+        cases quot (kv.2 - lv) (2 * d * old) <;> simp
+
+/-- a steady-state quantity that is INVERSELY proportional to the parameter (`x* = A / k`, e.g. the pool size of a
+    linear chain in its efflux constant): the normalised response coefficient the code computes is `-1 / (1 - d²)` -/
+theorem C18_response_inverse_order (A k d : Rat) (hA : A ≠ 0) (hk : k ≠ 0) (hd : d ≠ 0) (h1 : 1 + d ≠ 0) (h2 : 1 - d ≠ 0) :
+    coef true d k (A / (k * (1 + d))) (A / (k * (1 - d))) (A / k) = some (-1 / (1 - d ^ 2)) := by
+  have e1 : (2 * d * k) ≠ 0 := by grind
+  have e2 : (A / k) ≠ 0 := by
+    intro h
+    have : A = 0 := by
+      have := congrArg (· * k) h
+      simp at this
+      grind
+    exact hA this
+  simp only [coef, quot, e1, e2, if_false, if_true, Option.map_some]
+  congr 1
+  have hk1 : k * (1 + d) ≠ 0 := by grind
+  have hk2 : k * (1 - d) ≠ 0 := by grind
+  have hd2 : (1 - d ^ 2) ≠ 0 := by
+    have : 1 - d ^ 2 = (1 + d) * (1 - d) := by grind
+    rw [this]; grind
+  grind
+
 /-! ### the formulas and the structure of the CURRENT source (`translate/c18.py` → `Generated/C18Expr.lean`) -/
 
 open Mxl.Generated.C18 in
